@@ -253,9 +253,57 @@ def rule_r4(prog, res) -> None:
             res.violation("C12.R4", fc, z[0], "ids, centres and radii zipped for the linkage do not come from the same catalog", key_extra="link-zip-sources")
 
 
+def rule_r5(prog, res) -> None:
+    """patch metadata (sum of weights, centre, radius) are cached as what they are (shared with C11.R8)"""
+    from . import c11
+    from .common import shared_rule
+
+    shared_rule(res, c11.rule_r8, "C11", "C11.R8", "C12.R5")
+
+
+def rule_r6(prog, res) -> None:
+    """a catalog reports the centres it was partitioned with: in every constructor the centres handed to the patch
+    writer and the centres handed to the loader of the finished catalog are the same value (symbolic store)"""
+    from .. import symx
+
+    n = 0
+    for fi in prog.funcs:
+        calls = {c_.func.id if isinstance(c_.func, ast.Name) else getattr(c_.func, "attr", "") for c_ in calls_in(fi)}
+        if not {"write_patches", "load_patches"} <= calls:
+            continue
+        n += 1
+        res.touch(fi)
+        bad = None
+        paths = [p for p in symx.explore(prog, fi, skip_tests=("logger",), env={"on_root()": True}) if p.outcome == "return"]
+        for p in paths:
+            w = p.calls("write_patches")
+            l = p.calls("load_patches")
+            if not w or not l:
+                continue
+            wc = kwarg(w[0].expr, "patch_centers") or (w[0].expr.args[2] if len(w[0].expr.args) > 2 else None)
+            lc = kwarg(l[0].expr, "patch_centers")
+            if wc is None or lc is None or unparse(wc) != unparse(lc):
+                bad = (l[0], unparse(wc) if wc is not None else "<none>", unparse(lc) if lc is not None else "<none>", p.cond_text()[:80])
+        if bad:
+            res.violation(
+                "C12.R6",
+                fi,
+                bad[0].node,
+                f"the patches are written for the centres `{bad[1][:50]}` but the catalog is loaded with `{bad[2][:50]}` (when {bad[3]}): the reported centres are not the ones the records were assigned to, "
+                "a second catalog aligned to this one gets a different partition",
+                key_extra=f"centres-write-load-{fi.qualname}",
+            )
+        else:
+            res.ok("C12.R6", res.site(fi), f"write_patches and load_patches receive the same centres on all {len(paths)} path(s)")
+    if n < 3:
+        raise AnalysisError(f"C12.R6: only {n} constructors that write and then load patches found, minimum 3")
+
+
 RULES = [
     ("C12.R1", rule_r1, QUICK),
     ("C12.R2", rule_r2, QUICK),
     ("C12.R3", rule_r3, QUICK),
     ("C12.R4", rule_r4, QUICK),
+    ("C12.R5", rule_r5, QUICK),
+    ("C12.R6", rule_r6, QUICK),
 ]
